@@ -142,4 +142,19 @@ CHECKS = {
         "quick": [T("TestC01", 8, 50, steps=30)],
         "thorough": [T("TestC01", 16, 2500, steps=30, timeout=3000)],
     },
+    "C14": {
+        "level": "exploration",
+        "rule": ("rapid: fresh nodes with 1-7 genesis admins, gas price 0/1/7/50000, small or shipped genesis balance, audit "
+                 "on/off; 1-6 blocks of 1-8 transactions: transfers with amounts 0, 1, exact balance, balance+1, 2^256, "
+                 "non-numeric, negative, balance-fee+1, to funded/poor/admin/contract addresses, succeeding and failing BVM "
+                 "calls, role registrations with votes (documented grant). Oracle on raw state dumps: sum of balances never "
+                 "grows beyond the documented grants and shrinks by at most (admins-1) per transaction; no negative balance; an "
+                 "account loses value only if it sent a transaction in the block and at most its stated amounts plus fees; "
+                 "blocks made of transfers only are re-executed by a big-integer reference executor (amount, fee = gasUsed x "
+                 "price, whole-balance fallback, integer fee split) and every touched balance must match exactly. Non-trivial = "
+                 "a block mixing a successful, a failing and a fee-fallback transaction; distinct = hash of history."),
+        "assumptions": ["fee of a transaction = receipt.GasUsed x configured gas price (the gas schedule itself is not re-derived)"],
+        "quick": [T("TestC14", 8, 300, steps=30)],
+        "thorough": [T("TestC14", 16, 12000, steps=30, timeout=3000)],
+    },
 }
